@@ -533,26 +533,112 @@ pub fn specials() -> Vec<(String, RSchema, bool)> {
 			));
 		}
 	}
+	// enum with zero symbols (accepted by the crate; canonical form "symbols":[])
+	for (ni, ns) in NAMESPACES.iter().enumerate() {
+		let e0 = || RSchema::Enum { name: join(ns, "Y"), symbols: vec![] };
+		out.push((format!("enum0-root-{ni}"), e0(), false));
+		out.push((format!("enum0-array-{ni}"), RSchema::array(e0()), false));
+		out.push((format!("enum0-map-{ni}"), RSchema::map(e0()), false));
+		out.push((format!("enum0-union-{ni}"), RSchema::Union(vec![RSchema::Null, e0(), RSchema::Int]), false));
+		for (ri, rns) in NAMESPACES.iter().enumerate() {
+			let mut fields = vec![("e".to_owned(), e0()), ("n".to_owned(), RSchema::Enum { name: join(rns, "Z"), symbols: vec!["".into()] })];
+			if ns == rns || !ns.is_empty() {
+				fields.push(("e2".to_owned(), RSchema::Union(vec![RSchema::Null, RSchema::Ref(join(ns, "Y"))])));
+			}
+			out.push((format!("enum0-field-{ni}-{ri}"), RSchema::Record { name: join(rns, "X"), fields }, false));
+		}
+	}
+	// two references pending at once, both before their definitions (forward references), with
+	// the same simple name in different namespaces (and a control with different simple names)
+	let def = |kind: usize, full: &str| match kind {
+		0 => RSchema::Record { name: full.to_owned(), fields: vec![("v".to_owned(), RSchema::Int)] },
+		_ => RSchema::Enum { name: full.to_owned(), symbols: vec!["S".into(), "T".into()] },
+	};
+	for (ai, ans) in NAMESPACES.iter().enumerate() {
+		for (bi, bns) in NAMESPACES.iter().enumerate() {
+			if ai == bi {
+				continue;
+			}
+			for same in [true, false] {
+				let a = join(ans, "Id");
+				let b = join(bns, if same { "Id" } else { "Jd" });
+				for kinds in 0..4usize {
+					for order in 0..2usize {
+						for w in [Wrap::Id, Wrap::Array] {
+							let defs = |fields: &mut Vec<(String, RSchema)>| {
+								let da = ("c".to_owned(), def(kinds & 1, &a));
+								let db = ("d".to_owned(), def(kinds >> 1, &b));
+								if order == 0 {
+									fields.push(da);
+									fields.push(db);
+								} else {
+									fields.push(db);
+									fields.push(da);
+								}
+							};
+							// nested: the root lives in A's namespace, the second reference sits in a
+							// record of B's namespace: both can be written as the bare simple name
+							if same {
+								let mut fields = vec![
+									("a".to_owned(), wrap(w, RSchema::Ref(a.clone()))),
+									("q".to_owned(), RSchema::Record { name: join(bns, "Q"), fields: vec![("y".to_owned(), RSchema::Union(vec![RSchema::Null, RSchema::Ref(b.clone())]))] }),
+								];
+								defs(&mut fields);
+								out.push((format!("fwd2-nested-{ai}-{bi}-{kinds}-{order}-{w:?}"), RSchema::Record { name: join(ans, "R"), fields }, false));
+							}
+							// flat: both references are fields of the root record
+							for (ri, rns) in NAMESPACES.iter().enumerate() {
+								let ok = |ns: &str| ns == *rns || !ns.is_empty();
+								if !ok(ans) || !ok(bns) || (kinds != 0 && ri > 1) {
+									continue;
+								}
+								let mut fields = vec![("a".to_owned(), wrap(w, RSchema::Ref(a.clone()))), ("b".to_owned(), RSchema::map(RSchema::Ref(b.clone())))];
+								defs(&mut fields);
+								out.push((format!("fwd2-flat-{ai}-{bi}-{same}-{kinds}-{order}-{w:?}-{ri}"), RSchema::Record { name: join(rns, "R"), fields }, false));
+							}
+						}
+					}
+				}
+			}
+		}
+	}
 	out
 }
 
-/// All forward-reference variants of a valid AST: for each named type with a reference after
-/// its (complete) definition, swap the definition with the first such reference.
-pub fn forward_variants(ast: &RSchema) -> Vec<RSchema> {
+/// Swap the definition of `name` with its first later reference (outside the definition), if the
+/// reference can be written at the definition's site.
+pub fn swap_forward(ast: &RSchema, name: &str) -> Option<RSchema> {
 	let st = sites(ast);
+	let d = st.iter().find(|d| d.kind == SiteKind::Def(name.to_owned()))?;
+	let (ns, _) = split_fullname(name);
+	if !(ns == d.enclosing || !ns.is_empty()) {
+		return None;
+	}
+	let r = st.iter().find(|r| r.idx >= d.end && r.kind == SiteKind::Ref(name.to_owned()))?;
+	let def = get_at(ast, d.idx).unwrap();
+	let step1 = replace_at(ast, r.idx, &def);
+	Some(replace_at(&step1, d.idx, &RSchema::Ref(name.to_owned())))
+}
+
+/// All forward-reference variants of a valid AST: for each named type with a reference after
+/// its (complete) definition, swap the definition with the first such reference; plus the
+/// variant in which every such type is swapped (several references pending at once).
+pub fn forward_variants(ast: &RSchema) -> Vec<RSchema> {
+	let names: Vec<String> = sites(ast).iter().filter_map(|s| if let SiteKind::Def(n) = &s.kind { Some(n.clone()) } else { None }).collect();
 	let mut out = Vec::new();
-	for d in &st {
-		let SiteKind::Def(name) = &d.kind else { continue };
-		let (ns, _) = split_fullname(name);
-		// the reference put at the definition site must be expressible there
-		if !(ns == d.enclosing || !ns.is_empty()) {
-			continue;
+	let mut all = ast.clone();
+	let mut swapped = 0;
+	for n in &names {
+		if let Some(v) = swap_forward(ast, n) {
+			out.push(v);
 		}
-		let Some(r) = st.iter().find(|r| r.idx >= d.end && r.kind == SiteKind::Ref(name.clone())) else { continue };
-		let def = get_at(ast, d.idx).unwrap();
-		let step1 = replace_at(ast, r.idx, &def);
-		let step2 = replace_at(&step1, d.idx, &RSchema::Ref(name.clone()));
-		out.push(step2);
+		if let Some(v) = swap_forward(&all, n) {
+			all = v;
+			swapped += 1;
+		}
+	}
+	if swapped >= 2 {
+		out.push(all);
 	}
 	out
 }
@@ -963,7 +1049,8 @@ pub fn case_of_grammar(b: &Bounds, choices: Vec<usize>) -> AstCase {
 }
 
 pub fn case_of_special(label: &str, i: usize, ast: &RSchema, vary_scale: bool) -> AstCase {
-	let mut c = AstCase::new(label, vec![i], ast.clone(), Expect::Valid);
+	let expect = if defined_before_use(ast) { Expect::Valid } else { Expect::ValidForward };
+	let mut c = AstCase::new(label, vec![i], ast.clone(), expect);
 	c.vary_scale = vary_scale;
 	c
 }
@@ -984,6 +1071,9 @@ impl BaseSet {
 	}
 	/// ASTs whose single-edit invalid derivatives are enumerated
 	pub fn derive_invalid_from(&self, c: &AstCase) -> bool {
+		if c.family.starts_with("fwd2") {
+			return true;
+		}
 		if c.expect != Expect::Valid {
 			return false;
 		}
@@ -1368,9 +1458,17 @@ pub fn pcf_edits(ast: &RSchema) -> (Vec<(&'static str, RSchema)>, Vec<(&'static 
 						sy.swap(0, 1);
 						changing.push(("symbols-reordered", replace_at(ast, s.idx, &rewrap(RSchema::Enum { name: name.clone(), symbols: sy }))));
 					}
+					if !symbols.is_empty() {
+						let mut sy = symbols.clone();
+						sy[0] = "ZZ".into();
+						changing.push(("symbol-renamed", replace_at(ast, s.idx, &rewrap(RSchema::Enum { name: name.clone(), symbols: sy }))));
+					}
+					// a symbol added (in particular to an enum without symbols)
 					let mut sy = symbols.clone();
-					sy[0] = "ZZ".into();
-					changing.push(("symbol-renamed", replace_at(ast, s.idx, &rewrap(RSchema::Enum { name: name.clone(), symbols: sy }))));
+					sy.push("".into());
+					if !symbols.contains(&String::new()) {
+						changing.push(("symbol-added", replace_at(ast, s.idx, &rewrap(RSchema::Enum { name: name.clone(), symbols: sy }))));
+					}
 				}
 				RSchema::Fixed { name, size } => {
 					changing.push(("size-changed", replace_at(ast, s.idx, &rewrap(RSchema::Fixed { name: name.clone(), size: size + 1 }))));
@@ -1441,4 +1539,26 @@ pub fn has_unconditional_record_cycle(root: &RSchema) -> bool {
 	collect(root, &mut defs);
 	let all: Vec<&RSchema> = defs.values().copied().collect();
 	all.into_iter().any(|d| visit(d, &defs, &mut Vec::new()))
+}
+
+/// Maximal number of distinct names referred to before their definition at one point of the
+/// document (references pending at once).
+pub fn pending_at_once(s: &RSchema) -> usize {
+	let st = sites(s);
+	let mut pending: Vec<&str> = Vec::new();
+	let mut max = 0;
+	for site in &st {
+		match &site.kind {
+			SiteKind::Ref(n) => {
+				let defined = st.iter().any(|d| d.kind == SiteKind::Def(n.clone()) && d.idx < site.idx);
+				if !defined && !pending.contains(&n.as_str()) {
+					pending.push(n);
+					max = max.max(pending.len());
+				}
+			}
+			SiteKind::Def(n) => pending.retain(|p| p != n),
+			_ => {}
+		}
+	}
+	max
 }
